@@ -89,7 +89,7 @@ impl<'a> Emitter<'a> {
         let mut g = st.generics.clone();
         let rw = TyRw { u: self.u, in_unit_ty: false };
         rw.rewrite_generics(&mut g);
-        let name = &st.ident;
+        let name = &match &ss.rename { Some(r) => Ident::new(r, proc_macro2::Span::call_site()), None => st.ident.clone() };
         let mut fields = vec![];
         if let Fields::Named(nf) = &st.fields {
             for f in nf.named.iter() {
@@ -132,7 +132,7 @@ impl<'a> Emitter<'a> {
         let mut g = en.generics.clone();
         let rw = TyRw { u: self.u, in_unit_ty: false };
         rw.rewrite_generics(&mut g);
-        let name = &en.ident;
+        let name = &match &es.rename { Some(r) => Ident::new(r, proc_macro2::Span::call_site()), None => en.ident.clone() };
         let mut vars = vec![];
         for v in en.variants.iter() {
             if !crate::attrs_cfg_pub(&v.attrs) {
@@ -182,8 +182,30 @@ impl<'a> Emitter<'a> {
         self.items.push(ts.to_string());
     }
 
-    pub fn add_fn(&mut self, ff: &FoundFn, fs: &FnSpec, mut sig: Signature, body: Block, keys: Vec<String>, poolstr: String) {
-        let id = format!("{}::{}", fs.src, fs.path);
+    pub fn add_fn(&mut self, ff: &FoundFn, fs: &FnSpec, sig: Signature, body: Block, keys: Vec<String>, poolstr: String) {
+        // `attr split N`: prove the ensures clauses N at a time on copies of the same body (smaller solver queries);
+        // the function itself keeps the whole contract for its callers, its body being checked through the copies
+        if let Some(n) = fs.attrs.iter().find_map(|a| a.strip_prefix("split ")).and_then(|n| n.trim().parse::<usize>().ok()) {
+            let ens: Vec<Clause> = fs.ensures.clone();
+            let chunks: Vec<Vec<Clause>> = ens.chunks(n.max(1)).map(|c| c.to_vec()).collect();
+            for (k, ch) in chunks.into_iter().enumerate() {
+                let mut fs2 = fs.clone();
+                fs2.attrs.retain(|a| !a.starts_with("split "));
+                fs2.ensures = ch;
+                fs2.rename = Some(format!("{}__part{}", fs.rename.clone().unwrap_or_else(|| sig.ident.to_string()), k));
+                self.add_fn_one(ff, &fs2, sig.clone(), body.clone(), keys.clone(), poolstr.clone(), Some(k));
+            }
+            let mut fs3 = fs.clone();
+            fs3.attrs.retain(|a| !a.starts_with("split "));
+            fs3.attrs.push("#[verifier::external_body] /* split-proved: the body is verified in the __partN copies below */".to_string());
+            self.add_fn_one(ff, &fs3, sig, body, keys, poolstr, None);
+            return;
+        }
+        self.add_fn_one(ff, fs, sig, body, keys, poolstr, None);
+    }
+
+    fn add_fn_one(&mut self, ff: &FoundFn, fs: &FnSpec, mut sig: Signature, body: Block, keys: Vec<String>, poolstr: String, part: Option<usize>) {
+        let id = match part { Some(k) => format!("{}::{}#part{}", fs.src, fs.path, k), None => format!("{}::{}", fs.src, fs.path) };
         if let Some(r) = &fs.rename {
             sig.ident = Ident::new(r, proc_macro2::Span::call_site());
         }
@@ -356,6 +378,11 @@ impl<'a> Emitter<'a> {
                 }
                 continue;
             }
+            if let Some(rest) = t.strip_prefix("__vx_reveal!(") {
+                let lit = rest.trim_end_matches(");").to_string();
+                out.push(format!("{}proof {{ reveal_strlit({}); }}", indent, lit));
+                continue;
+            }
             if let Some(rest) = t.strip_prefix("__vx_pt!(") {
                 let key = rest.trim_end_matches(");").trim_matches('"').to_string();
                 let f = cur_fn.expect("pt marker outside fn");
@@ -394,6 +421,18 @@ impl<'a> Emitter<'a> {
                 head.pop();
                 let hindent: String = out[k][..out[k].len() - out[k].trim_start().len()].to_string();
                 out[k] = head.trim_end().to_string();
+                if let Some(ls) = f.spec.loops.get(&n) {
+                    let mut init: Vec<String> = vec![];
+                    self.render_ghost(&ls.init, &hindent, &mut init, &f.poolstr);
+                    if !init.is_empty() {
+                        let header = out.remove(k);
+                        for (j, l) in init.into_iter().enumerate() {
+                            out.insert(k + j, l);
+                        }
+                        out.push(header);
+                    }
+                }
+                let k = out.len() - 1;
                 let tail: Vec<String> = out.drain(k + 1..).collect();
                 out.push(format!("{}    // @loop {}", hindent, n));
                 if let Some(ls) = f.spec.loops.get(&n) {
